@@ -126,7 +126,29 @@ def build_one_vector(case, vclass):
     deck = probe_deck([sur], [M.S(-1), M.S(1)],
                       title=f'C04 one-vector {vclass} {kind}')
     ent = [None] * 9
-    ent[3 * i:3 * i + 3] = [float(v) for v in vec]
+    typed = [float(v) for v in vec]
+    if rng.random() < 0.5:
+        # as a user types it: three or four digits, or not normalised at
+        # all - the vector fixes a direction, which is what the reference
+        # uses (the rows of `bmat` are rebuilt from the typed vector)
+        digits = rng.choice([3, 4, 4, 5])
+        typed = [round(v, digits) for v in typed]
+        if rng.random() < 0.2:
+            scale = rng.choice([2.0, 0.5, 3.0])
+            typed = [v * scale for v in typed]
+        tvec = np.array(typed)
+        if np.linalg.norm(tvec) > 0.1:
+            tvec = tvec / np.linalg.norm(tvec)
+            helper = np.eye(3)[int(np.argmin(abs(tvec)))]
+            second = np.cross(tvec, helper)
+            second /= np.linalg.norm(second)
+            bmat[i], bmat[(i + 1) % 3], bmat[(i + 2) % 3] = \
+                tvec, second, np.cross(tvec, second)
+            motion = ref.Motion(org, bmat)
+            deck.tags.add('vector.as-typed')
+        else:
+            typed = [float(v) for v in vec]
+    ent[3 * i:3 * i + 3] = typed
     if i == 0 and rng.random() < 0.6:
         ent = ent[:3]               # the plain three-value form
     form = rng.choice(['card', 'inline'])
